@@ -520,17 +520,22 @@ class IKRun:
             # claim that is wrong under BOTH readings is a violation (the discrepancy itself is C05's business).
             S_, M_ = self.geom()
             ang = lin = None
+            blind_reading = None
             for vi, T in enumerate(fk_variants(S_, M_, theta, _load()["fmr"].FKinSpace)):
                 a_, l_ = pose_errors(T, G)
                 ok_ = a_ <= rot_tol * (1 + 1e-6) + 1e-12 and min(l_) <= pos_tol * (1 + 1e-6) + 1e-12
                 if ang is None or ok_:
-                    ang, lin = a_, l_       # if no reading reaches the goal the library's own (the first) is reported
+                    ang, lin = a_, l_       # if no reading reaches the goal the library's own (the first) is reported ...
+                if not ok_ and blind_reading is None and a_ <= ANG_BLIND and min(l_) <= pos_tol * (1 + 1e-6) + 1e-12:
+                    blind_reading = (a_, l_)    # ... unless one reading misses only by a rotation inside the log's blind zone
                 if ok_:
                     if vi == 1:
                         P["reached_only_under_exact_fk"] += 1
                     elif vi > 1:
                         P["reached_only_under_mixed_nearzero_reading"] += 1
                     break
+            if blind_reading is not None and not (ang <= rot_tol * (1 + 1e-6) + 1e-12 and min(lin) <= pos_tol * (1 + 1e-6) + 1e-12):
+                ang, lin = blind_reading
             # the library's own reading of the angular error (its MatrixLog6 cannot see rotations below ~1.5e-8 rad): a
             # success that its own measure confirms but an exact log does not is the known blind-zone finding, a success
             # that even its own measure refutes is something else
@@ -623,7 +628,16 @@ class IKRun:
                     # where did the failed solve stop?  The blind-zone finding explains a stagnation a hair's breadth from
                     # the goal (rotation invisible to the log, position error = lever x that rotation) and nothing else.
                     try:
-                        a_f, l_f = pose_errors(self.fk(theta), G)
+                        # judge the FIRST attempt (the returned vector may be a later restart's): the kernels are pure
+                        fm_ = _load()["fmr"]
+                        S__, M__ = self.geom()
+                        if path == "free":
+                            th1, _ = fm_.IKinSpace(S__, M__, np.array(G), info["start"].copy(), rot_tol, pos_tol,
+                                                   max_iters=int(st.get("max_iters", 30)))
+                        else:
+                            th1, _ = fm_.IKinSpaceConstrained(S__.copy(), M__.copy(), np.array(G), info["start"].copy(), pos_tol, rot_tol,
+                                                              info["mins"], info["maxs"], int(st.get("max_iters", 30)))
+                        a_f, l_f = pose_errors(self.fk(th1), G)
                         rb = self.reach()
                         blind = bool(a_f <= 1e-7 and min(l_f) <= 3e-7 * max(rb[1] if rb else 10.0, 1.0))
                     except Exception:
